@@ -201,6 +201,16 @@ def run_world(facts, rep, w, floors):
                 if is_result_ty(ty) and tracked_err(ty):
                     n_results += 1
         rep.analysed.add(b.id)
+    # positive control on the real code: the consumer classifier must recognise discarding combinators where they
+    # legitimately occur (PhysicalFS::metadata turns unsupported timestamps into None with `.ok()`)
+    n_ctl = 0
+    for b in facts.bodies:
+        rt = facts.body(b.root) if b.kind == "Closure" and b.root else b
+        if rt is not None and rt.impl and rt.impl["self_ty"] == w.physical and not rt.impl.get("derived"):
+            for blk in b.calls():
+                if short(blk.term.callee() or "") in DISCARDING:
+                    n_ctl += 1
+    rep.floor("positive control: discarding combinators recognised in %s" % w.physical, n_ctl, 3)
     rep.floor("Result-producing call sites examined (%s)" % w.tag, n_results, floors["results"])
     rep.floor("matched-Result Err edges (%s)" % w.tag, n_err_edges, floors["err_edges"])
     rep.floor("kind-switch arms (%s)" % w.tag, n_kind_escapes, floors["kind_arms"])
